@@ -21,18 +21,20 @@ RULE = ("ck: cookie cases = one Generate (compared byte for byte) + Validate que
         "packet/dead-peer/restore over 4 hosts (same VLAN other MAC, same MAC other VLAN, outside any group) with "
         "valid, replayed, expired, foreign-tuple, truncated, bit-flipped and missing cookies, session-ids of own, "
         "foreign and unknown sessions, counter positions {1,0xfffe,0xffff,random}, occupied runs across the wrap, "
-        "full and nearly full id space, concurrent PADRs. Non-trivial: ck always; tags accepted; tb with a session "
+        "full and nearly full id space, concurrent PADRs (C) and PADRs forced to overlap between allocateSessionID and "
+        "addToIndexes (P, gate in the AccessResolver) incl. the last-free-id race; restored sessions with usernames, "
+        "CHAP Responses naming a session like another one, removal by PADT / dead peer. Non-trivial: ck always; tags accepted; tb with a session "
         "created and at least one PADT/session packet reaching or refused. Distinct: by case text.")
 TRUSTED = ["HMAC-SHA256 is an uninterpreted function argument H of the model; the driver instantiates it with an "
            "OCaml SHA-256 written for this check, the harness forges cookies with Go crypto/hmac",
            "the wall clock is read from the implementation's output (second granularity); cases are re-run by the "
            "harness when the second changes mid-case; lifetimes are whole seconds",
            "c.sessions is keyed by the tuple in the model (the Go key string mac:svlan:cvlan is injective)"]
-ASSUMPTIONS = ["H_mac_unforgeable (premise of C04_cookie_sound): a 32-byte value that verifies under the secret was "
-               "produced by Generate for exactly that message",
-               "restored sessions (installInMemoryState) carry pairwise distinct non-zero ids",
-               "sequential semantics per packet handler; concurrent PADRs are only stressed (op C), not modelled "
-               "between allocateSessionID and addToIndexes"]
+ASSUMPTIONS = ["H_mac_unforgeable (premise of C04_cookie_sound / C04_admission, for the one tag presented): a 32-byte "
+               "value that verifies under the secret was produced by Generate for exactly that message",
+               "restored sessions (installInMemoryState) carry pairwise distinct non-zero ids that are not in use",
+               "packet handlers are atomic except handlePADR, which is split at the one point where it releases all locks "
+               "(between allocateSessionID and addToIndexes); every interleaving of those halves is covered"]
 
 A = ("020000aa0001", 100, 10)
 B = ("020000bb0002", 100, 10)    # same VLANs, other MAC
